@@ -38,7 +38,13 @@ class Tape:
         a = np.array(a, copy=True)
         m, n = a.shape
         if full_matrices:
-            raise RuntimeError('tape svd: full_matrices=True not modelled')
+            # full SVD (evp.__update_core): only arbitrary answers are used
+            k = min(m, n)
+            u = self._rint((m, m))
+            v = self._rint((n, n))
+            s = np.array([float(2 ** e) for e in sorted([self.rng.randint(0, 3) for _ in range(k)], reverse=True)])
+            self.calls.append(('svd', [a], [u, s, v]))
+            return u.copy(), s.copy(), v.copy()
         if self.kind == 'real':
             u, s, v = _REAL['svd'](a, full_matrices=False)
         elif self.kind == 'arb':
@@ -96,6 +102,33 @@ class Tape:
                 r, q = a.copy(), np.eye(n)
         self.calls.append(('rq', [a], [r, q]))
         return r.copy(), q.copy()
+
+    # ---- eigenvalue problems (arbitrary answers: distinct real integer eigenvalues) ------------
+    def _distinct(self, k, n):
+        pool = list(range(-n - 2, n + 3))
+        self.rng.shuffle(pool)
+        return sorted(pool[:k])
+
+    def eig(self, a, b=None, left=False, right=True, overwrite_a=False, overwrite_b=False, check_finite=True, homogeneous_eigvals=False):
+        a = np.array(a, copy=True)
+        n = a.shape[0]
+        w = np.array(self._distinct(n, n), dtype=float)
+        self.rng.shuffle(w)
+        v = self._rint((n, n))
+        ins = [a] + ([np.array(b, copy=True)] if b is not None else [])
+        self.calls.append(('eig', ins, [w, v]))
+        return w.astype(complex), v.copy()
+
+    def eigh(self, a, b=None, subset_by_index=None, **kw):
+        a = np.array(a, copy=True)
+        n = a.shape[0]
+        lo, hi = subset_by_index
+        k = hi - lo + 1
+        w = np.array(self._distinct(k, n), dtype=float)
+        v = self._rint((n, k))
+        ins = [a] + ([np.array(b, copy=True)] if b is not None else [])
+        self.calls.append(('eigh', ins, [w, v]))
+        return w.copy(), v.copy()
 
     # ---- linear solves -----------------------------------------------------------------------
     def _solve_answer(self, a, b):
